@@ -40,7 +40,7 @@ def gen_case(rng, tier):
     else:
         gene = {"kind": "shipped", "name": rng.choice(cfg["shipped"]), "genome": rng.choice(["hg19", "hg38"])}
     return {"gene": gene, "seed": rng.randint(0, 10**9), "gap": rng.choice([0, 0, 0.1, 0.5]),
-            "mode": rng.choice(["planted", "planted", "noisy", "noisy", "wild", "excess", "crowded"]),
+            "mode": rng.choice(["planted", "planted", "noisy", "noisy", "wild", "excess", "crowded", "near_tie"]),
             "depth": rng.choice([10, 20, 30]), "max_copies": rng.choice([2, 3, 3, 4])}
 
 
@@ -295,6 +295,20 @@ def run_case(case, seg, viol, unsound, stats, sample):
             if carriers and all(any(w not in seen and w != y for w in a.func_muts) for a in carriers):
                 table[y.pos] = {y.op: D, "_": D * (ncopy - 1)}
                 break
+    elif mode == "near_tie":
+        # a core variant observed at almost exactly k + 0.5 copies: two combinations whose fit errors differ
+        # by a few thousandths (between the solver precision 1e-5 and the solution precision 1e-2)
+        table = SL.planted_table(gene, [(ma, None) for ma, mi in planted], 500)
+        have = sorted({m for ma, mi in planted for m in gene.alleles[ma].func_muts})
+        if have:
+            x = rng.choice(have)
+            ncopy = max(1, sum(1 for ma, mi in planted if gene.has_coverage(ma, x.pos)))
+            tot = 500 * ncopy
+            kx = sum(1 for ma, mi in planted if x in gene.alleles[ma].func_muts)
+            want = (kx - 0.5) / ncopy
+            cx = int(round(want * tot)) + rng.choice([-3, -2, -1, 1, 2, 3])
+            cx = max(1, min(tot - 1, cx))
+            table[x.pos] = {x.op: cx, "_": tot - cx}
     elif mode == "crowded":
         # every catalogued alternative allele of a multi-allelic site is observed, more of them than the
         # structure has copies: all but `copies` of them would have to be novel at ONE site
